@@ -420,15 +420,15 @@ class IkeSa(object):
 
         return self._send_request(request)
 
-    def process_expire(self, spi, hard=False):
+    def process_expire(self, spi, hard=False, inbound=None):
         """ Creates a rekey CREATE_CHILD_SA message for creating a new CHILD or an INFORMATIONAL for deleting it
         """
         if self.state != IkeSa.State.ESTABLISHED:
             self.log_debug('Cannot process expire while waiting for a response. Queuing')
-            self.pending_events.append((self.process_expire, spi, hard))
+            self.pending_events.append((self.process_expire, spi, hard, inbound))
             return None
 
-        child_sa = self.get_child_sa(spi)
+        child_sa = self.get_child_sa(spi, inbound)
         if child_sa is None:
             self.log_debug(f'Received expire for unknown CHILD_SA with spi {spi.hex()}')
             return None
@@ -1160,9 +1160,11 @@ class IkeSa(object):
 
         return self.generate_response(Message.Exchange.CREATE_CHILD_SA, response_payloads)
 
-    def get_child_sa(self, spi):
+    def get_child_sa(self, spi, inbound=None):
+        # inbound: True / False when the caller knows which of the two SPIs it is naming, None otherwise
         try:
-            return next(x for x in self.child_sas if spi == x.inbound_spi or spi == x.outbound_spi)
+            return next(x for x in self.child_sas if (spi == x.inbound_spi and inbound is not False)
+                        or (spi == x.outbound_spi and inbound is not True))
         except StopIteration:
             return None
 
